@@ -38,7 +38,7 @@ func init() {
 				defer wg.Done()
 				defer func() { <-sem }()
 				evs := filepath.Join(c.S.Dir, fmt.Sprintf("rg%d.ndjson", i))
-				if o, err := c.S.HRun(30*time.Minute, "rapidgen", "--type", t, "--n", fmt.Sprint(c.pick(3, 40)), "--seed", fmt.Sprint(c.Seed*50+int64(i)), "--out", evs); err != nil {
+				if o, err := c.S.HRun(30*time.Minute, "rapidgen", "--type", t, "--n", fmt.Sprint(c.pick(3, 100)), "--seed", fmt.Sprint(c.Seed*50+int64(i)), "--out", evs); err != nil {
 					mu.Lock()
 					c.R.InternalErr("rapidgen %s: %v %s", t, err, trunc(o, 800))
 					mu.Unlock()
